@@ -57,7 +57,9 @@ fn check_prefixes(base: &DirState, recs: &[Rec], want: &RefSnap, level: usize, s
                 // listed finding: the recovering open rewrites in place (several write cycles, no
                 // staging copy), so there are windows without a valid TOC once it has started to
                 // overwrite the old one; a failure BEFORE that first overwrite is something else
-                if overwritten { "C04:unopenable-inside-in-place-rewrite-window-of-recovery".to_string() } else { format!("C04:unopenable-after-crash-during-recovery-level-{level}") },
+                // (the listed finding is the absence of a valid table of contents; an open that fails
+                // for another reason, e.g. a log record that cannot be applied a second time, is not it)
+                if overwritten && e.to_lowercase().contains("table of contents") { "C04:unopenable-inside-in-place-rewrite-window-of-recovery".to_string() } else { format!("C04:unopenable-after-crash-during-recovery-level-{level}") },
                 format!("crash after syscall #{j} ({}) of a recovering open (nesting level {level}): a later open fails: {e}", r.kind_name()),
             )),
             Ok(s) => {
